@@ -4,6 +4,8 @@
 #   (1) patch applies, (2) whole existing suite passes with it, (3) demo fails with it, (4) demo passes without it.
 # Writes <out-dir>/confirm.json.  The worktree is kept between calls (removed by tools/confirm_cleanup.sh).
 set -u
+# one seeded run / confirmation at a time (they share scratch worktrees)
+exec 9>/tmp/seeded.lock; flock 9
 OUT=$1; ID=$2
 WT=/tmp/confirm-wt
 export CARGO_NET_OFFLINE=true RUSTC_BOOTSTRAP=1 CARGO_INCREMENTAL=0
